@@ -373,6 +373,7 @@ func compileStruct(typ *runtime.Type, structName, fieldName string, structTypeTo
 						isTaggedKey: v.isTaggedKey,
 						key:         k,
 						keyLen:      int64(len(k)),
+						depth:       v.depth + 1,
 					}
 					allFields = append(allFields, fieldSet)
 				}
@@ -401,6 +402,7 @@ func compileStruct(typ *runtime.Type, structName, fieldName string, structTypeTo
 							key:         k,
 							keyLen:      int64(len(k)),
 							err:         fieldSetErr,
+							depth:       v.depth + 1,
 						}
 						allFields = append(allFields, fieldSet)
 					}
@@ -462,17 +464,30 @@ func filterDuplicatedFields(allFields []*structFieldSet) []*structFieldSet {
 	for _, field := range allFields {
 		fieldMap[field.key] = append(fieldMap[field.key], field)
 	}
-	duplicatedFieldMap := map[string]struct{}{}
-	for k, sets := range fieldMap {
-		sets = filterFieldSets(sets)
-		if len(sets) != 1 {
-			duplicatedFieldMap[k] = struct{}{}
+	winners := map[*structFieldSet]struct{}{}
+	for _, sets := range fieldMap {
+		// the fields at the shallowest embedding depth hide every deeper one of the same name
+		minDepth := sets[0].depth
+		for _, set := range sets {
+			if set.depth < minDepth {
+				minDepth = set.depth
+			}
+		}
+		shallowest := make([]*structFieldSet, 0, len(sets))
+		for _, set := range sets {
+			if set.depth == minDepth {
+				shallowest = append(shallowest, set)
+			}
+		}
+		shallowest = filterFieldSets(shallowest)
+		if len(shallowest) == 1 {
+			winners[shallowest[0]] = struct{}{}
 		}
 	}
 
 	filtered := make([]*structFieldSet, 0, len(allFields))
 	for _, field := range allFields {
-		if _, exists := duplicatedFieldMap[field.key]; exists {
+		if _, exists := winners[field]; !exists {
 			continue
 		}
 		filtered = append(filtered, field)
